@@ -12,6 +12,15 @@ CHECKS = {
  'C02': ('exploration', 'hx', 'sandwich oracle (strict/permissive independent record parser + digest recomputation) over systematic record mutants',
          'Systematic mutants of reference-written records for every parameter set are authenticated with right/empty/wrong passwords and put through list, list-full, add, update and remove; verdicts are judged by an independent schema implementation with a strict and a permissive reading, so only answers outside the latitude the schema leaves are flagged. Canonical foreign-written records must authenticate.',
          'Trusts go/ref (independent scrypt+HMAC / argon2id recomputation); hang detection uses a 30 s/90 s limit on a deterministic call.', '5 C02'),
+ 'C05': ('exploration', 'hx', 'trace monitor on a raw unix-socket client + callback recorder, judged by a reference wire decoder; Go race detector on the same runs',
+         'Thousands of scripted byte streams (valid, truncated at every byte, over-long, padded, random) under scripted fragmentations, pauses and end modes are sent to the real sasl.Server; a monitor attributes every callback invocation to its connection and checks call count, argument equality, the one-part-then-EOF reply shape, the OK-only-if-approved rule and decodability of every reply by the bundled client decoder, for scripted callback outcomes with messages up to 70000 bytes; 64-way concurrent phase under -race.',
+         'Trusts go/ref/wire.go; a request kept open forever is not a finished byte stream (nothing asserted); the compiled PAM module reads real replies in the C20 check.', '5 C05'),
+ 'C13': ('exploration', 'hx', 'differential oracle against a reference codec; scripted io.Readers for fragment independence',
+         'All 5^4 length combinations at the limit values x 3 content classes for the request encoder (exhaustive over that finite grid), response messages around the limits, decoder-vs-reference on mutated encodings / random bytes / the repository fuzz corpus, and every input re-decoded under 1-byte, 2-way, k-way, zero-length-read and data-with-EOF fragmentations, which must equal the one-piece result.',
+         'Trusts go/ref/wire.go. The PAM encoder comparison runs in the pam-encoder stage once the C harness is built.', '5 C13'),
+ 'C14': ('exploration', 'hx', 'strict reference parser + independent digest recomputation over records written under generated YAML configurations',
+         'Every record written by add/update (incl. same-password rewrites of back-dated records, default switches) under hundreds of generated YAML parameter sets is parsed strictly and its digest recomputed with x/crypto primitives directly from the YAML values; salt sizes, salt reuse across the whole run, timestamp brackets, base64 form and absence of passwords / HMAC keys from the directory are monitored.',
+         'Trusts x/crypto scrypt/argon2 and crypto/hmac as the independent implementation.', '5 C14'),
 }
 
 def main():
